@@ -4,6 +4,7 @@ pub mod orswot;
 pub mod mvreg;
 pub mod ident;
 pub mod glist;
+pub mod map;
 
 use serde::{de::DeserializeOwned, Serialize};
 
